@@ -321,7 +321,11 @@ impl std::ops::Neg for &'_ SparqlNumber {
 
     fn neg(self) -> Self::Output {
         match self {
-            SparqlNumber::NativeInt(inner) => Some((-inner).into()),
+            SparqlNumber::NativeInt(inner) => Some(match inner.checked_neg() {
+                Some(neg) => neg.into(),
+                // NB: the opposite of isize::MIN does not fit in an isize
+                None => (-BigInt::from(*inner)).into(),
+            }),
             SparqlNumber::BigInt(inner) => Some((-inner).into()),
             SparqlNumber::Decimal(inner) => Some((-inner).into()),
             SparqlNumber::Float(inner) => Some((-inner).into()),
